@@ -75,6 +75,16 @@ Definition S_iter_from_eq : Prop :=
   acc_iter_from le cs p (enc_offs le cs p g sel) (enc_stream le cs p g sel rest) (N.of_nat k)
   = Some (skipn k g).
 
+(** The same with the ring buffer as the code has it ([window + 1] slots indexed by
+    [node mod (window + 1)], pre-filled in ascending node order). *)
+Definition S_iter_from_ring_eq : Prop :=
+  forall le cs p g sel rest k,
+  codes_ok cs = true -> Forall inc g -> valid_sel p [] g sel = true ->
+  (k <= length g)%nat ->
+  acc_iter_from_ring le cs p (enc_offs le cs p g sel) (enc_stream le cs p g sel rest)
+    (N.of_nat k)
+  = Some (skipn k g).
+
 (** The sequential-only graph: decode from the start, discard [k] lists. *)
 Definition S_seq_iter_from_eq : Prop :=
   forall le cs p g sel rest k,
